@@ -18,10 +18,10 @@ def ChkW (p : Par) (lastCheck v : Nat) : Chk → Prop
 
 /-- Some pending obligation will end the vacancy that began at `v` in time. -/
 def W (p : Par) (s : St) (v : Nat) : Prop :=
-  (∃ c ∈ s.crts, c ≤ v + p.P + p.J + 2 * p.L) ∨ (∃ r ∈ s.owed, r ≤ v + p.P + 2 * p.L) ∨ ChkW p s.lastCheck v s.chk
+  (∃ c ∈ s.crts, c ≤ v + p.P + p.J + 2 * p.L + p.B) ∨ (∃ r ∈ s.owed, r ≤ v + p.P + 2 * p.L) ∨ ChkW p s.lastCheck v s.chk
 
 structure Inv (p : Par) (s : St) : Prop where
-  owedLe : ∀ r ∈ s.owed, r ≤ s.now ∧ s.now ≤ r + p.J
+  owedLe : ∀ r ∈ s.owed, r ≤ s.now ∧ s.now ≤ r + p.J + p.B
   crtsLe : ∀ c ∈ s.crts, c ≤ s.now ∧ s.now ≤ c + p.L
   lastLe : s.lastCheck ≤ s.now
   chkOK : ChkTimes p s.now s.lastCheck s.chk
@@ -131,7 +131,7 @@ theorem step_inv {p : Par} {s s' : St} {a : Act} (inv : Inv p s) (h : step p s a
           simp only at hr
           split at hr
           · rcases List.mem_cons.mp hr with rfl | hr
-            · exact ⟨Nat.le_refl _, Nat.le_add_right _ _⟩
+            · exact ⟨Nat.le_refl _, by show s.now ≤ s.now + p.J + p.B; omega⟩
             · exact hO r hr
           · exact hO r hr
         · show s.now ≤ c + p.P + p.L
